@@ -139,7 +139,7 @@ func ruleStateCoverage(c *Ctx, r *Report) {
 				continue
 			}
 			want := src12[f]
-			ls := c.Origins(v, 0)
+			ls := c.OriginsThrough(v, 0)
 			var descs []string
 			okAll := len(ls) > 0
 			for _, l := range ls {
@@ -194,7 +194,7 @@ func ruleStateCoverage(c *Ctx, r *Report) {
 				}
 				good := false
 				var descs []string
-				for _, l := range c.Origins(v, 0) {
+				for _, l := range c.OriginsThrough(v, 0) {
 					descs = append(descs, c.describe(l))
 					if isFieldLoad(l, "dtls.State", want) {
 						good = true
@@ -207,7 +207,7 @@ func ruleStateCoverage(c *Ctx, r *Report) {
 					}
 				}
 				if f == "Version" {
-					good = anyLeaf(c.Origins(v, 0), func(l ssa.Value) bool { return isFieldLoad(l, "dtls.State", "version") })
+					good = anyLeaf(c.OriginsThrough(v, 0), func(l ssa.Value) bool { return isFieldLoad(l, "dtls.State", "version") })
 				}
 				r.Check(good, rule, key, c.ipos(al), "from State."+want, "serializedState."+f+" does not come from State."+want+": "+strings.Join(descs, ", "))
 			}
@@ -582,24 +582,37 @@ func ruleVersion13Refused(c *Ctx, r *Report) {
 		fl := c.enumConsts(pkgF12, "Flight")
 		for _, role := range []bool{true, false} {
 			rl := role
-			w := (&Walk{Fn: fn, Assume: assumeAll(
+			w := &Walk{Fn: fn, Assume: assumeAll(
 				atomAssume{mLoad(tCfg, "ResumeState"), vNil(false)},
 				atomAssume{mLoad(tCom, "IsClient"), vBool(rl)},
-			)}).FromEntry()
+			)}
+			// the handshakeStart value is followed along each path: the last constant stored into
+			// each of its fields (a literal per return, or one value adjusted per role)
+			w.Init = constFields{}
+			w.Step = func(in ssa.Instruction, st PathState, _ map[*ssa.Phi]ssa.Value) bool {
+				if store, ok := in.(*ssa.Store); ok {
+					if o, f, _, ok := fieldOfAddr(store.Addr); ok && o == "dtls.handshakeStart" {
+						if k, isK := constInt(store.Val); isK {
+							st.(constFields)[f] = k
+						} else {
+							delete(st.(constFields), f)
+						}
+					}
+				}
+				return true
+			}
+			w.FromEntry()
 			good := len(w.Returns) == 1
 			desc := ""
 			if good {
-				al := allocOf(w.Returns[0].Raw[0])
-				var f map[string]ssa.Value
-				if al != nil {
-					f = litFields(al)
-				} else if u, ok := w.Returns[0].Raw[0].(*ssa.UnOp); ok {
-					if a2, ok := u.X.(*ssa.Alloc); ok {
-						f = litFields(a2)
-					}
+				f := map[string]ssa.Value{}
+				cf, _ := w.Returns[0].St.(constFields)
+				_ = f
+				fs, okS := cf["fsmState"]
+				fv, okF := cf["flight12"]
+				if !okS || !okF {
+					fs, fv = -1, -1
 				}
-				fs, _ := constInt(f["fsmState"])
-				fv, _ := constInt(f["flight12"])
 				wantF := fl["Flight6"]
 				if rl {
 					wantF = fl["Flight5"]
@@ -662,4 +675,226 @@ func ruleSnapshotLive(c *Ctx, r *Report) {
 		r.Check(good, rule, fmt.Sprintf("%s:return%d", short(fn), n), c.ipos(ret), "the snapshot is generated from Conn.state during this call", "ConnectionState can return a State that was not generated from the live connection state during this call (cached or stale snapshot: the exported sequence counter lags behind the records already sent): "+why)
 	}
 	r.Floor(rule, n, 1)
+}
+
+// ruleImportMirrorsExport (C19, C15): what generateState takes out of an internal slot (a field of
+// state.Common, or a getter on it) generateInternalState puts back into that same slot (the field,
+// or the matching setter) and from the State field of that name only. The slot pairs are read off
+// the export function; nothing is listed by hand. A restore that goes through a helper is followed
+// one call deep with closed-world argument substitution.
+func ruleImportMirrorsExport(c *Ctx, r *Report) {
+	const rule = "import-mirrors-export"
+	exp := c.need(r, rule, "dtls.generateState")
+	imp := c.need(r, rule, "(*dtls.State).generateInternalState")
+	if exp == nil || imp == nil {
+		return
+	}
+	al := returnedLiteral(exp, 0, "dtls.State")
+	if al == nil {
+		r.Unk(rule, short(exp), c.pos(exp.Pos()), "returned State literal not found")
+		return
+	}
+	var deep func(v ssa.Value, d int) []ssa.Value
+	deep = func(v ssa.Value, d int) []ssa.Value {
+		var out []ssa.Value
+		for _, l := range c.OriginsIP(v, 0) {
+			if call, ok := l.(*ssa.Call); ok && d < 4 {
+				n := calleeName(&call.Call)
+				if n == "bytes.Clone" || n == "slices.Clone" || strings.HasSuffix(n, ".CloneByteSlices") {
+					out = append(out, deep(call.Call.Args[0], d+1)...)
+					continue
+				}
+			}
+			out = append(out, l)
+		}
+		return out
+	}
+	callees := map[*ssa.Function]bool{}
+	for _, call := range findCalls(imp, func(string) bool { return true }) {
+		if cal := call.Call.StaticCallee(); cal != nil && inModule(cal) && len(cal.Blocks) > 0 {
+			callees[cal] = true
+		}
+	}
+	r.Sites += len(imp.Blocks)
+	n := 0
+	set := litFields(al)
+	for _, f := range sortedKeys(set) {
+		// the slot this State field is exported from
+		var slotField, slotSetter string
+		for _, l := range c.Origins(set[f], 0) {
+			if o, ff, _, ok := fieldLoad(l); ok && o == "internal/state.Common" {
+				slotField = ff
+			}
+			if call, ok := l.(*ssa.Call); ok {
+				if cal := call.Call.StaticCallee(); cal != nil && cal.Signature.Recv() != nil && namedOrType(cal.Signature.Recv().Type()) == "internal/state.Common" {
+					slotSetter = "Set" + cal.Name()
+				}
+			}
+		}
+		if slotField == "" && slotSetter == "" {
+			continue
+		}
+		fromOwn := func(v ssa.Value) (bool, string) {
+			ls := deep(v, 0)
+			var ds []string
+			ok := len(ls) > 0
+			for _, l := range ls {
+				ds = append(ds, c.describe(l))
+				if !isFieldLoad(l, "dtls.State", f) {
+					ok = false
+				}
+			}
+			sort.Strings(ds)
+			return ok, strings.Join(dedup(ds), ", ")
+		}
+		type wr struct {
+			v   ssa.Value
+			at  ssa.Instruction
+			own bool // written in the import function itself
+		}
+		var writes []wr
+		if slotField != "" {
+			for _, st := range c.StoresTo("internal/state.Common", slotField) {
+				if st.Fn == imp {
+					writes = append(writes, wr{st.Val, st.Instr, true})
+				}
+			}
+			if len(writes) == 0 {
+				for _, st := range c.StoresTo("internal/state.Common", slotField) {
+					if callees[st.Fn] {
+						writes = append(writes, wr{st.Val, st.Instr, false})
+					}
+				}
+			}
+		} else {
+			collect := func(fn *ssa.Function, own bool) {
+				for _, call := range findCalls(fn, func(n string) bool { return n == "(*internal/state.Common)."+slotSetter }) {
+					if len(call.Call.Args) >= 2 {
+						writes = append(writes, wr{call.Call.Args[1], call, own})
+					}
+				}
+			}
+			collect(imp, true)
+			if len(writes) == 0 {
+				for cal := range callees {
+					collect(cal, false)
+				}
+			}
+		}
+		slot := "Common." + slotField
+		if slotField == "" {
+			slot = "Common." + slotSetter + "()"
+		}
+		key := short(imp) + ":" + f
+		n++
+		if len(writes) == 0 {
+			r.Bad(rule, key, c.pos(imp.Pos()), "State."+f+" is exported from "+slot+" but the import path never writes that slot")
+			continue
+		}
+		good := true
+		var bad string
+		var badAt ssa.Instruction
+		for _, w := range writes {
+			if ok, d := fromOwn(w.v); !ok {
+				good = false
+				bad = d
+				badAt = w.at
+			}
+		}
+		pos := c.ipos(writes[0].at)
+		if badAt != nil {
+			pos = c.ipos(badAt)
+		}
+		r.Check(good, rule, key, pos, slot+" <- State."+f, "the import path fills "+slot+" from ["+bad+"], not (only) from State."+f+" which was exported from that slot: a resumed endpoint comes back with a different value in it (for the connection IDs: its own ID on outgoing records, the peer's expected on incoming)")
+	}
+	r.Floor(rule, n, 10)
+}
+
+// ruleResumeKeepsNegotiated (C19): between the installation of a resumed state and the return of
+// Handshake nothing writes the slots the export/import pair carries (the set is read off
+// generateState): in the functions that start a handshake, a write to such a slot of state.Common
+// must not be able to reach a successful return. A connection resumed from exported state starts in
+// the finished state, no flight runs, and whatever such a write wipes stays wiped.
+func ruleResumeKeepsNegotiated(c *Ctx, r *Report) {
+	const rule = "resume-keeps-negotiated"
+	exp := c.need(r, rule, "dtls.generateState")
+	if exp == nil {
+		return
+	}
+	al := returnedLiteral(exp, 0, "dtls.State")
+	if al == nil {
+		r.Unk(rule, short(exp), c.pos(exp.Pos()), "returned State literal not found")
+		return
+	}
+	slotField := map[string]string{}
+	slotSetter := map[string]string{}
+	for f, v := range litFields(al) {
+		for _, l := range c.Origins(v, 0) {
+			if o, ff, _, ok := fieldLoad(l); ok && o == "internal/state.Common" {
+				slotField[ff] = f
+			}
+			if call, ok := l.(*ssa.Call); ok {
+				if cal := call.Call.StaticCallee(); cal != nil && cal.Signature.Recv() != nil && namedOrType(cal.Signature.Recv().Type()) == "internal/state.Common" {
+					slotSetter["Set"+cal.Name()] = f
+				}
+			}
+		}
+	}
+	if len(slotField)+len(slotSetter) < 8 {
+		r.Unk(rule, "slots", "", "fewer exported slots than expected")
+		return
+	}
+	n := 0
+	for _, name := range []string{"(*dtls.Conn).HandshakeContext", "(*dtls.Conn).prepareHandshakeStart", "(*dtls.Conn).prepareHandshakeStart12", "(*dtls.Conn).handshake"} {
+		fn := c.Fn(name)
+		if fn == nil {
+			continue
+		}
+		n++
+		r.Sites += len(fn.Blocks)
+		succ := possibleSuccessReturns(fn)
+		bad := 0
+		check := func(in ssa.Instruction, slot, stateField string) {
+			for _, ret := range succ {
+				if instrReaches(in, ret) {
+					bad++
+					r.Bad(rule, fmt.Sprintf("%s:%s", short(fn), slot), c.ipos(in), fmt.Sprintf("%s writes %s (exported as State.%s) on a path that can return success: a connection resumed from exported state has that value wiped, since no flight runs to negotiate it again", short(fn), slot, stateField))
+					return
+				}
+			}
+		}
+		for _, b := range fn.Blocks {
+			for _, in := range b.Instrs {
+				switch x := in.(type) {
+				case *ssa.Store:
+					if o, f, _, ok := fieldOfAddr(x.Addr); ok && o == "internal/state.Common" {
+						if sf, isSlot := slotField[f]; isSlot {
+							check(in, "Common."+f, sf)
+						}
+					}
+				case *ssa.Call:
+					if cal := x.Call.StaticCallee(); cal != nil && cal.Signature.Recv() != nil && namedOrType(cal.Signature.Recv().Type()) == "internal/state.Common" {
+						if sf, isSlot := slotSetter[cal.Name()]; isSlot {
+							check(in, "Common."+cal.Name()+"()", sf)
+						}
+					}
+				}
+			}
+		}
+		if bad == 0 {
+			r.OK(rule, short(fn), c.pos(fn.Pos()), "no write to an exported slot can reach a successful return")
+		}
+	}
+	r.Floor(rule, n, 2)
+}
+
+// constFields is a per-path record of the constants last stored into the fields of one struct.
+type constFields map[string]int64
+
+func (c constFields) Fork() PathState {
+	d := make(constFields, len(c))
+	for k, v := range c {
+		d[k] = v
+	}
+	return d
 }
